@@ -62,6 +62,7 @@ type Ctx struct {
 	profErr       []string
 	decodeReach   map[*ssa.Function]bool
 	inlined       map[*ast.FuncDecl]bool
+	cursor        *cursorProof
 }
 
 func load(repo, tier string) (*Ctx, error) {
